@@ -1,5 +1,6 @@
 SPECIFICATION Spec
 CONSTANTS
   TRecover = 3000
+  AcceptDeadline = 1300
 POSTCONDITION TraceAccepted
 CHECK_DEADLOCK FALSE
